@@ -138,6 +138,22 @@ impl Future for Sleep {
             if let Some(k) = self.key.take() {
                 kernel::timer_cancel(k);
             }
+            // tokio's cooperative budget: a task that has done a lot of work inside one poll (here: 128
+            // kernel events) is made to yield by the next timer it polls, even if that timer has elapsed.
+            // Without it a loop over elapsed timers and immediately failing I/O (retry delay zero, connect
+            // refused at once) would never return from its poll, which no real runtime lets happen
+            let exhausted = kernel::with(|w| {
+                if w.in_poll.is_some() && w.events_in_poll >= 128 {
+                    w.count("coop_budget_yield");
+                    true
+                } else {
+                    false
+                }
+            });
+            if exhausted {
+                cx.waker().wake_by_ref();
+                return Poll::Pending;
+            }
             return Poll::Ready(());
         }
         if let Some(k) = self.key.take() {
